@@ -23,7 +23,7 @@ ASSUMPTIONS = [
 ]
 
 def plan(tier):
-    return dict(runs=6000 if tier == 'quick' else 80000, timeout=300 if tier == 'quick' else 3600)
+    return dict(runs=6000 if tier == 'quick' else 80000, timeout=900 if tier == 'quick' else 7200)
 
 def check_export(model):
     """None or (site, message)."""
